@@ -134,8 +134,10 @@ struct St : FSM::State {
       case 1: c.restart((StateID) dest); break;
       case 2: c.resume((StateID) dest); break;
       case 3: c.select((StateID) dest); break;
+#ifdef HFSM2_ENABLE_UTILITY_THEORY
       case 4: c.utilize((StateID) dest); break;
       case 5: c.randomize((StateID) dest); break;
+#endif
       default: c.schedule((StateID) dest); break;
     }
   }
